@@ -111,6 +111,22 @@ ExpireGeneric(d, now, a, kind) ==
         ELSE IF at <= now THEN Res(IF Real THEN Put(d, k, [d[k] EXCEPT !.exp = at]) ELSE Del(d, k), RInt(1))
         ELSE ResT(Put(d, k, [d[k] EXCEPT !.exp = at]), RInt(1), relk, tolk)
 
+(* GT / LT compare the new deadline with the current one.  Deadlines set relative to the server
+   clock, or in whole seconds, are only known to the model within about a second, so a comparison
+   of two deadlines less than 2 s apart has no defined outcome in the model: such (state, command)
+   pairs are not claimed by the bounded models.                                                   *)
+ExpireAmbiguous(d, now, a, kind) ==
+    LET n == ArgInt(a[2])
+        t == AbsTimeArg(a[2])
+        at == CASE kind = "s" -> now + 1000 * n.v
+                [] kind = "ms" -> now + n.v
+                [] OTHER -> (IF t.pos THEN t.v ELSE DeepPast)
+        cur == ExpOf(d, a[1])
+        diff == IF at > cur THEN at - cur ELSE cur - at
+    IN  /\ Len(a) = 3 /\ (Is(a[3], "GT") \/ Is(a[3], "LT"))
+        /\ (IF kind \in {"s", "ms"} THEN n.ok ELSE t.ok)
+        /\ cur # 0 /\ diff < 2000
+
 Persist(d, a) ==
     IF Len(a) # 1 THEN Fail(d, EArg)
     ELSE IF ~Has(d, a[1]) \/ ExpOf(d, a[1]) = 0 THEN Res(d, RInt(0))
